@@ -122,9 +122,26 @@ def spec_strategy(draw, tier):
             "kseed": draw(st.integers(0, 1 << 20)), "topology": topology}
 
 
+@st.composite
+def quic_handshake_interleave(draw, tier):
+    """concurrent QUIC handshakes whose ClientHello / server flight are split over several datagrams at the SAME offsets (real stacks cut at
+    MTU-derived offsets) and delivered out of order, interleaved datagram by datagram: shared reassembly state would show here"""
+    n = draw(st.integers(2, 4))
+    chunk = draw(st.sampled_from([61, 97, 128]))
+    conns = []
+    for i in range(n):
+        c = draw(strategies.quic_conn(max_steps=4, ep=strategies.endpoints(idx=i), retry=False, early=False))
+        c.update(split_chunk=chunk, split_ch=draw(st.sampled_from([2, 3, 5])), ch_shuffle=True, split_shs=draw(st.sampled_from([0, 2, 3])))
+        c["seed"] = c["seed"] * 16 + i
+        conns.append(c)
+    return {"conns": conns, "order": draw(st.lists(st.integers(0, 3), min_size=2, max_size=12)), "tseed": draw(st.integers(1, 1000)),
+            "kseed": draw(st.integers(0, 1 << 20)), "topology": "quic-handshakes"}
+
+
 def stages(tier):
     quick = tier == "quick"
-    return [Stage("interleavings", evaluate, strategy=lambda t: spec_strategy(t), examples=400 if quick else 10000)]
+    return [Stage("interleavings", evaluate, strategy=lambda t: spec_strategy(t), examples=400 if quick else 10000),
+            Stage("quic-handshake-interleave", evaluate, strategy=lambda t: quic_handshake_interleave(t), examples=300 if quick else 6000)]
 
 
 RULE = ("2-5 (thorough: 2-10) connections, TLS and QUIC mixed with unrelated traffic, endpoint topologies {all distinct, same two hosts with different "
